@@ -436,6 +436,31 @@ def obs_target(it, key):
         return ["ERR:" + type(e).__name__]
 
 
+def real_batch_obs(out):
+    """the batched call protocol on the real output: per batched interaction and target, `it[target]([i-th action of every member])`
+    for every i (only when every member has the same number of actions and the target is a Batch.Callable)"""
+    from coba.primitives import is_batch
+    res = []
+    for it in out:
+        bkeys = [k for k, v in it.items() if is_batch(v)]
+        if not bkeys:
+            continue
+        d = {}
+        for key in ("rewards", "feedbacks"):
+            d[key] = None
+            if key in it and "actions" in it and "actions" in bkeys and callable(it[key]) and len(it["actions"]) > 0 \
+                    and len(set(len(a) for a in it["actions"])) == 1 and all(callable(f) for f in it[key]):
+                cols = []
+                for i in range(len(it["actions"][0])):
+                    try:
+                        cols.append(obs_json(list(it[key]([acts[i] for acts in it["actions"]]))))
+                    except Exception as e:
+                        cols.append(["ERR:" + type(e).__name__])
+                d[key] = cols
+        res.append(d)
+    return res
+
+
 def obs_eq(a, b):
     if a is None or b is None:
         return a is None and b is None
@@ -1197,7 +1222,7 @@ class Gen:
                 batched = False
         if sc[0] in ("str", "cat") and not batched and r.chance(0.15):
             chain.insert(r.below(len(chain) + 1), {"f": "cycle", "after": r.choice([0, 0, 1, 2])})
-        if batched and r.chance(0.6):
+        if batched and r.chance(0.45):
             chain.append({"f": "unbatch"})
         via = r.wchoice([(60, "filters"), (15, "pipes"), (25, "shortcuts")])
         case = {"stream": stream, "chain": chain, "via": via}
@@ -1241,6 +1266,8 @@ class C10(Property):
             "sparse dict, multi-label) with pairwise-distinct actions, rewards as list/tuple/BinaryReward/DiscreteReward (list, dict, permuted, superset)/"
             "HammingReward/L1Reward/plain function, run through chains of 1-4 of Repr(16 mode pairs)/Flatten/Sparsify/Densify(lookup,hashing)/Noise/"
             "Cycle(after)/Batch/Unbatch/Finalize built as filter objects, Pipes.join or Environments shortcuts (with the implicit Finalize); "
+            "one Environments object with 2-3 member environments (7 %, read in a PRNG order), key insertion order of the interaction dicts permuted (35 %), "
+            "mixed-kind action sets (6 %); "
             "delivered as a materialised list or (30 %) lazily from a generator of fresh objects that are dropped after use, 7 % long streams of 20-60 "
             "interactions with fresh (LazySparse / HashableSparse / dict) action objects each, 15 % with one or two further sequences pushed through "
             "the same filter objects and judged on their own; "
@@ -1254,6 +1281,8 @@ class C10(Property):
         "CobaRandom(1).shuffle used by Densify(lookup) is the C05 model's shuffle",
         "filter objects: the model's claim that only Densify's key table survives a filter() call (filter_stateless_except_lookup, densify_reuse_eq_prior) "
         "is tied to the code by the reuse cases (same objects, several sequences) and by comparing the object's `_lookup` with densifyRun's final table",
+        "batched rewards: the model's batchCall / batchObs (member k's function on member k's action) are compared with the real Batch.Callable protocol on every "
+        "list-delivered case whose final stream is batched (tag batch-obs-checked); pairwiseNeB is compared with Python's != on every case",
         "the shape predicates of the injectivity theorems (denseCatShapeB, flattenShapeB) are evaluated by the driver on the real inputs of Repr/Flatten steps "
         "and their conclusion (the real filter keeps the action set a set) is checked on the real output",
     ]
@@ -1272,6 +1301,9 @@ class C10(Property):
                          "encoders to the per-interaction plans of Repr/Flatten (splitBy plumbing), Repr on sparse rows and on nested categoricals, Densify's "
                          "injectivity (its table is proved monotone and equal to keysAsked, but `distinct slots ⇒ distinct SparseDense rows` is not proved), "
                          "the `keep` cases of Repr('string') on lists and Harden (a congruence of pyEq, not proved)",
+        "densify_lookup_injective (not stated as a theorem)": "open: distinct slots ⇒ distinct SparseDense rows; the table side is proved (densify_prior_monotone, "
+                     "densify_state_is_keys, fresh_densify_object), hashing is shown to fail genuinely (densify_hashing_counterexample); the injectivity of the "
+                     "densified actions stays a per-case evaluated hypothesis compared with the real filter",
         "pyEq_symm": "proved on the dense fragment (numbers, strings, categoricals, nested lists/tuples); for dicts and SparseDense rows symmetry is "
                      "checked per case against Python's == in both directions (tag pyEq-checked) but not proved",
         "pyEq_refl": "proved for values without SparseDense whose dict keys are unique (wfNoLazy); SparseDense rows not covered",
@@ -1355,6 +1387,20 @@ class C10(Property):
 
     def corpus(self):
         cs = [dict(_copy(c), via="filters") for c in WITNESSES.values()]
+        # densify_hashing_counterexample on the real code: crc32('a') % 7 == crc32('b') % 7 == 4 (a collision by design: excused in (B), compared in (A))
+        ha, hb = {"d": [["a", V_n(1)]]}, {"d": [["b", V_n(1)]]}
+        cs.append({"stream": [{"context": None, "actions": [ha, hb], "rewards": {"k": "fn", "table": [[ha, [5, 1]], [hb, [6, 1]]], "default": FN_DEFAULT}}],
+                   "chain": [{"f": "densify", "n": 7, "m": "hashing", "c": False, "a": True}], "via": "filters"})
+        # batched pipelines whose batched reward / feedback functions are exercised through the call protocol
+        A2, B2 = ({"c": x, "L": ["a", "b"]} for x in "ab")
+        for ch in ([{"f": "batch", "n": 2}], [{"f": "batch", "n": 2}, {"f": "repr", "cc": None, "ca": "onehot"}], [{"f": "batch", "n": 3}, {"f": "sparsify", "c": False, "a": True}],
+                   [{"f": "batch", "n": 2}, {"f": "finalize"}], [{"f": "repr", "cc": "string", "ca": "onehot_tuple"}, {"f": "batch", "n": 2}, {"f": "flatten"}]):
+            st = []
+            for t in range(3):
+                acts = [A2, B2] if t % 2 == 0 else [B2, A2]
+                st.append({"context": V_n(t), "actions": acts, "rewards": {"k": "fn", "table": [[acts[0], [t, 1]], [acts[1], [t + 10, 1]]], "default": FN_DEFAULT},
+                           "feedbacks": {"k": "binary", "argmax": acts[t % 2], "value": [1, 1]}})
+            cs.append({"stream": st, "chain": ch, "via": "filters"})
         try:
             with open(os.path.join(os.path.dirname(os.path.dirname(os.path.dirname(os.path.abspath(__file__)))), "known", "C10.json"), encoding="utf-8") as f:
                 cs += [k["case"] for k in json.load(f).get("findings", []) if k.get("case")]
@@ -1490,6 +1536,11 @@ class C10(Property):
                     fails.append(F("A", "Python `==` on %s and %s is %s, the model's pyEq says %s" % (json.dumps(rows[i])[:150], json.dumps(rows[j])[:150], py_eq(a, b), ans["eq"][i][j]), "A:pyEq"))
             if ans["wf"][i] and not ans["eq"][i][i]:
                 fails.append(F("C", "pyEq_refl: well-formed value %s is not equal to itself in the model" % json.dumps(rows[i])[:150], "C:pyEq-refl"))
+        real_ne = all(i == j or not py_eq(objs[i], objs[j]) for i in range(len(objs)) for j in range(len(objs)))
+        if ans.get("pairwiseNe") is not None and ans["pairwiseNe"] != real_ne:
+            fails.append(F("A", "pairwise `!=` of %s: Python %s, model pairwiseNeB %s" % (json.dumps(rows)[:200], real_ne, ans["pairwiseNe"]), "A:pairwiseNe"))
+        if ans.get("pairwiseNe") and all(ans["wf"]) and not ans["distinct"]:
+            fails.append(F("C", "distinct_of_pairwise_ne fails in the model on %s" % json.dumps(rows)[:200], "C:pairwise-ne"))
         for i in range(len(objs)):
             for j in range(len(objs)):
                 if ans["denseOnly"][i] and ans["denseOnly"][j] and ans["eq"][i][j] != ans["eq"][j][i]:
@@ -1583,6 +1634,7 @@ class C10(Property):
 
         # the real pipeline, lazily composed
         impl_err, final, sizes = pipe_err, None, None
+        batch_obs = None
         if pipe is not None:
             try:
                 if lazy:
@@ -1616,11 +1668,13 @@ class C10(Property):
                     if sizes is not None and not stop and all(pairwise_distinct(m["actions"]) for m in fin if "actions" in m):
                         self.check_batch_call(out, original, fails, tags)
                     final = [interaction_json(it) for it in fin]
+                    if sizes is not None:
+                        batch_obs = real_batch_obs(out)
             except Exception as e:
                 impl_err, final = type(e).__name__, None
         if impl_err:
             tags.append("raises:" + impl_err)
-        impl = {"error": impl_err, "sizes": sizes, "stream": final}
+        impl = {"error": impl_err, "sizes": sizes, "stream": final, "batch_obs": batch_obs}
         return {"impl": impl, "steps": steps, "step_err": step_err, "nontrivial": changed and final is not None and has_target}
 
     def check_batch_call(self, out, original, fails, tags):
@@ -1694,6 +1748,24 @@ class C10(Property):
             return model
         if (impl["sizes"] or None) != (model.get("sizes") or None):
             fails.append(F("A", where + "batch sizes: implementation %s, model %s" % (impl["sizes"], model.get("sizes")), "A:batch-sizes"))
+        if impl.get("batch_obs") is not None and model.get("batch_obs") is not None:
+            tags.append("batch-obs-checked")
+            mb = model["batch_obs"]
+            if len(mb) != len(impl["batch_obs"]):
+                fails.append(F("A", where + "number of batches with a call protocol: implementation %d, model %d" % (len(impl["batch_obs"]), len(mb)), "A:batch-obs"))
+            else:
+                for bi, (ra, rb) in enumerate(zip(impl["batch_obs"], mb)):
+                    for key in ("rewards", "feedbacks"):
+                        va, vb = ra.get(key), rb.get(key)
+                        if va is None or vb is None:
+                            if (va is None) != (vb is None):
+                                fails.append(F("A", where + "batch %d: batched %s callable in the %s only" % (bi, key, "model" if va is None else "implementation"), "A:batch-obs"))
+                            continue
+                        ca = [["ERR" if isinstance(x, str) else Fraction(*x) for x in col] for col in va]
+                        cb = [None if col is None else ["ERR" if isinstance(x, str) else Fraction(x[0] / x[1]) for x in col] for col in vb]
+                        if not close(ca, cb):
+                            fails.append(F("A", where + "batch %d: batched %s called with the i-th action of every member: implementation %s, model %s"
+                                           % (bi, key, json.dumps(ca, default=str)[:300], json.dumps(cb, default=str)[:300]), "A:batch-obs"))
         ms = model["stream"]
         if len(ms) != len(impl["stream"]):
             fails.append(F("A", where + "stream length: implementation %d, model %d" % (len(impl["stream"]), len(ms)), "A:length"))
